@@ -487,6 +487,16 @@ def fixed_width_record_scenarios(ctx, home):
               "argument-record-changed": (gen("float32", fi, [], "v0"), lambda o: gen("float32", fi + [("z", P("float32"))], [("v0", o)], "v1"))}
     for name, (old, mk_new) in gcases.items():
         _evolve_pair(ctx, home, "generic-instance", "unchanged generic record instantiated with a changed type", name, old, mk_new(old))
+    # a named alias of a primitive whose primitive changed (documented: changing between primitive types), used directly as the element of vectors,
+    # fixed vectors, nested vectors and streams, inside an unchanged record and behind an unchanged alias of a vector
+    def prim(num_t, versions, d):
+        my = N("MyNum")
+        return Pkg("Evo", [Al("MyNum", P(num_t)), Al("MyVec", V(my)), Rec("Holder", [("v", V(my)), ("f", V(my, 3)), ("one", my), ("tag", P("uint8"))]),
+                           Proto("Evo", [("nums", V(my)), ("fixed", V(my, 3)), ("nested", V(V(my, 2))), ("maybe", Opt(V(my))), ("s", S(my)), ("sv", S(V(my, 2))),
+                                         ("holder", N("Holder")), ("holders", V(N("Holder"))), ("wrapped", N("MyVec")), ("end", P("int32"))])], [], versions, d)
+    for a, b in (("float32", "float64"), ("int64", "float64"), ("uint8", "int16"), ("int8", "float32"), ("float64", "int32"), ("complexfloat32", "complexfloat64")):
+        old = prim(a, [], "v0")
+        _evolve_pair(ctx, home, "alias-of-primitive", "alias of a primitive that changed, as the element of vectors / fixed vectors / streams", "%s-to-%s" % (a, b), old, prim(b, [("v0", old)], "v1"))
     # the generic record itself changed (a field added / removed / reordered); its instances with fixed-width arguments travel in vectors and batches
     three = (("a", TP("T")), ("b", TP("T")), ("c", TP("T")))
     rcases = {"generic-field-added": (gen("float64", fi, [], "v0"), lambda o: gen("float64", fi, [("v0", o)], "v1", three)),
